@@ -12,6 +12,9 @@ use verif_native::*;
 
 const LIB: &str = "use serde::{Serialize, Deserialize};\n#[derive(Serialize, Deserialize)]\npub struct User { pub id: u32, pub name: String }\n#[tauri::command]\npub fn get_user(id: u32) -> Option<User> { None }\n";
 
+const LIB_ALIAS: &str = "use serde::{Serialize, Deserialize};\n#[derive(Serialize, Deserialize)]\npub struct Settings { pub dark: bool }\n#[derive(Serialize, Deserialize)]\npub struct AppError { pub code: u32 }\n#[derive(Serialize, Deserialize)]\npub struct Unused { pub n: u32, pub inner: Inner }\n#[derive(Serialize, Deserialize)]\npub struct Inner { pub m: u32 }\n#[allow(non_camel_case_types)]\n#[derive(Serialize, Deserialize)]\npub struct point { pub x: i32 }\npub type Result<T> = std::result::Result<T, AppError>;\n#[tauri::command]\npub fn settings() -> Result<Settings> { todo!() }\n#[tauri::command]\npub fn origin() -> Option<point> { None }\n";
+const LIB_EDIT: &str = "use serde::{Serialize, Deserialize};\nuse tauri::Emitter;\nuse tauri::ipc::Channel;\n#[derive(Serialize, Deserialize, Clone)]\n#[serde(rename_all = \"camelCase\")]\npub struct Profile { #[validate(length(min = 1, max = 20))] pub user_name: String, pub age: Option<u32>, #[serde(rename = \"mail\")] pub email: String }\n#[derive(Serialize, Deserialize, Clone)]\npub enum Level { Low, High }\n#[derive(Serialize, Deserialize, Clone)]\npub enum Shape { Dot(u32), Rounded { corner_radius: u32 } }\n#[tauri::command]\npub fn draw(shape: Shape) {}\n#[tauri::command]\npub fn save(app: tauri::AppHandle, user_name: String, retry_count: u32, note: Option<String>, on_progress: Channel<u32>, profile: Profile) -> Result<Level, String> { app.emit(\"saved\", retry_count).ok(); todo!() }\n#[tauri::command]\npub fn greet(first_name: String, last_name: String) -> String { todo!() }\n";
+
 fn reserved(f: &str) -> bool {
     const R: [&str; 17] = ["types.ts", "types.d.ts", "commands.ts", "commands.d.ts", "events.ts", "events.d.ts", "index.ts", "index.d.ts",
         "schemas.ts", "schemas.d.ts", "models.ts", "models.d.ts", "bindings.ts", "bindings.d.ts", ".typecache", "dependency-graph.txt", "dependency-graph.dot"];
@@ -130,8 +133,10 @@ fn main() {
 
     // ---------------------------------------------------------------- C13 / C16: --visualize-deps and --verbose only add the two graph files
     for mode in ["none", "zod"] {
-        rep.case("visualisation_and_verbosity_only_add_the_graph_files", &format!("--validation {}", mode), &|| {
-            let p = project(&root, &format!("viz_{}", mode), Some(conf_plain));
+      for (lname, lib) in [("plain", LIB), ("alias", LIB_ALIAS)] {
+        rep.case("visualisation_and_verbosity_only_add_the_graph_files", &format!("--validation {} project={}", mode, lname), &|| {
+            let p = project(&root, &format!("viz_{}_{}", mode, lname), Some(conf_plain));
+            fs::write(p.join("src-tauri/src/lib.rs"), lib).map_err(|e| e.to_string())?;
             let pp = p.join("src-tauri");
             let strip = |m: BTreeMap<String, Vec<u8>>| -> BTreeMap<String, String> { m.into_iter().map(|(k, v)| (k, String::from_utf8_lossy(&v).lines().filter(|l| !l.contains("Generated at:")).collect::<Vec<_>>().join("\n"))).collect() };
             let mut outs = Vec::new();
@@ -155,6 +160,119 @@ fn main() {
             }
             Ok("ok".into())
         });
+      }
+    }
+
+    // ---------------------------------------------------------------- C16: a run that fails half-way leaves every foreign file alone
+    for mode in ["none", "zod"] {
+        for blocked in ["types.ts", "commands.ts", "index.ts"] {
+            for cached in [false, true] {
+                rep.case("failed_run_leaves_foreign_files_alone", &format!("--validation {} a directory named {} blocks the write, earlier successful run: {}", mode, blocked, cached), &|| {
+                    let p = project(&root, &format!("fail_{}_{}_{}", mode, blocked.replace('.', "_"), cached), Some(conf_plain));
+                    let pp = p.join("src-tauri"); let gp = p.join("src/generated");
+                    if cached {
+                        let (code, text) = run(&cli, &p, &["generate", "--project-path", pp.to_str().unwrap(), "--output-path", gp.to_str().unwrap(), "--validation", mode])?;
+                        if code != 0 { return Err(format!("the preparing run ended with status {}: {}", code, text.chars().take(200).collect::<String>())); }
+                        fs::remove_file(gp.join(blocked)).map_err(|e| e.to_string())?;
+                    }
+                    fs::create_dir_all(gp.join(blocked)).map_err(|e| e.to_string())?;
+                    fs::create_dir_all(gp.join("hand/written")).map_err(|e| e.to_string())?;
+                    for d in [format!("{}/inside.txt", blocked), "NOTES.md".to_string(), "helpers.ts".to_string(), "hand/written/util.ts".to_string()] { fs::write(gp.join(&d), format!("foreign {}", d)).map_err(|e| e.to_string())?; }
+                    let before = snapshot(&p);
+                    let (code, text) = run(&cli, &p, &["generate", "--project-path", pp.to_str().unwrap(), "--output-path", gp.to_str().unwrap(), "--validation", mode, "--force"])?;
+                    if text.contains("panicked at") { return Err(format!("the process panicked (status {})", code)); }
+                    let after = snapshot(&p);
+                    for (f, bytes) in &before {
+                        let generated = f.starts_with("src/generated/") && !f["src/generated/".len()..].contains('/') && reserved(&f["src/generated/".len()..]);
+                        if !generated && after.get(f) != Some(bytes) { return Err(format!("{} was modified or removed by the failing run (status {})", f, code)); }
+                    }
+                    for f in after.keys() { if !before.contains_key(f) && !(f.starts_with("src/generated/") && reserved(&f["src/generated/".len()..])) { return Err(format!("the failing run created {}", f)); } }
+                    Ok(format!("status {}", code))
+                });
+            }
+        }
+    }
+
+    // ---------------------------------------------------------------- C02: a generated file that was deleted is written again by the next (non-forced) run
+    for mode in ["none", "zod"] {
+        for lost in ["types.ts", "commands.ts", "events.ts", "index.ts"] {
+            rep.case("lost_generated_file_is_written_again", &format!("--validation {} delete {}", mode, lost), &|| {
+                let p = project(&root, &format!("lost_{}_{}", mode, lost.replace('.', "_")), Some(conf_plain));
+                let pp = p.join("src-tauri"); let gp = p.join("out");
+                fs::write(pp.join("src/lib.rs"), LIB_EDIT).map_err(|e| e.to_string())?;
+                let a = ["generate", "--project-path", pp.to_str().unwrap(), "--output-path", gp.to_str().unwrap(), "--validation", mode];
+                let (code, text) = run(&cli, &p, &a)?;
+                if code != 0 { return Err(format!("the first run ended with status {}: {}", code, text.chars().take(200).collect::<String>())); }
+                let first = snapshot(&gp);
+                if !first.contains_key(lost) { return Err(format!("UNPARSED: the first run wrote no {}", lost)); }
+                fs::remove_file(gp.join(lost)).map_err(|e| e.to_string())?;
+                let (code, text) = run(&cli, &p, &a)?;
+                if code != 0 { return Err(format!("the second run ended with status {}: {}", code, text.chars().take(200).collect::<String>())); }
+                let second = snapshot(&gp);
+                for f in first.keys() { if !second.contains_key(f) { return Err(format!("{} was deleted, the next run reported success, and {} is still missing: the other modules import from a file that does not exist", lost, f)); } }
+                Ok("ok".into())
+            });
+        }
+    }
+
+    // ---------------------------------------------------------------- C04 / C06 / C11 / C12 / C05: a second run through the generation cache equals a forced run
+    let edits: Vec<(&str, &str, &str, &str)> = vec![
+        ("incremental_run_sees_parameter_edits", "rename a parameter", "user_name: String, retry", "display_name: String, retry"),
+        ("incremental_run_sees_parameter_edits", "rename two parameters", "user_name: String, retry_count: u32", "display_name: String, max_attempts: u32"),
+        ("incremental_run_sees_parameter_edits", "rename the channel parameter", "on_progress: Channel", "on_tick: Channel"),
+        ("incremental_run_sees_parameter_edits", "Option parameter becomes required", "note: Option<String>", "note: String"),
+        ("incremental_run_sees_parameter_edits", "required parameter becomes Option", "retry_count: u32", "retry_count: Option<u32>"),
+        ("incremental_run_sees_parameter_edits", "add a parameter", "retry_count: u32", "retry_count: u32, dry_run: bool"),
+        ("incremental_run_sees_parameter_edits", "swap two parameters of the same type", "first_name: String, last_name: String", "last_name: String, first_name: String"),
+        ("incremental_run_sees_parameter_edits", "injected parameter becomes a frontend parameter", "app: tauri::AppHandle, user_name", "app: u32, user_name"),
+        ("incremental_run_sees_serde_edits", "rename_all of the struct", "rename_all = \"camelCase\"", "rename_all = \"SCREAMING_SNAKE_CASE\""),
+        ("incremental_run_sees_serde_edits", "rename of a field", "rename = \"mail\"", "rename = \"e_mail\""),
+        ("incremental_run_sees_serde_edits", "field name", "pub age:", "pub years:"),
+        ("incremental_run_sees_serde_edits", "skip a field", "pub age:", "#[serde(skip)] pub age:"),
+        ("incremental_run_sees_serde_edits", "new variant", "Low, High", "Low, Medium, High"),
+        ("incremental_run_sees_serde_edits", "rename_all of the enum", "pub enum Level", "#[serde(rename_all = \"lowercase\")]\npub enum Level"),
+        ("incremental_run_sees_serde_edits", "rename of a variant", "Low, High", "#[serde(rename = \"lo\")] Low, High"),
+        ("incremental_run_sees_validator_edits", "bound", "max = 20", "max = 30"),
+        ("incremental_run_sees_validator_edits", "validator removed", "#[validate(length(min = 1, max = 20))] ", ""),
+        ("incremental_run_sees_validator_edits", "validator added", "pub email:", "#[validate(email)] pub email:"),
+        ("incremental_run_sees_validator_edits", "message added", "max = 20)", "max = 20, message = \"too long\")"),
+        ("incremental_run_sees_event_edits", "event name", "\"saved\"", "\"stored\""),
+        ("incremental_run_sees_event_edits", "payload", "emit(\"saved\", retry_count)", "emit(\"saved\", user_name.clone())"),
+        ("incremental_run_sees_event_edits", "second emit", "todo!()", "app.emit(\"done\", true).ok(); todo!()"),
+        ("incremental_run_sees_parameter_edits", "rename_all of the command", "#[tauri::command]\npub fn save", "#[tauri::command(rename_all = \"snake_case\")]\npub fn save"),
+        ("incremental_run_sees_serde_edits", "rename_all_fields of the enum", "pub enum Shape", "#[serde(rename_all_fields = \"camelCase\")]\npub enum Shape"),
+        ("incremental_run_sees_serde_edits", "field of a struct variant", "corner_radius: u32", "corner_size: u32"),
+        ("incremental_run_sees_serde_edits", "rename of a struct-variant field", "corner_radius: u32", "#[serde(rename = \"r\")] corner_radius: u32"),
+        ("incremental_run_sees_serde_edits", "tuple variant becomes a unit variant", "Dot(u32)", "Dot"),
+        ("incremental_run_sees_type_edits", "type of a struct-variant field", "corner_radius: u32", "corner_radius: String"),
+        ("incremental_run_sees_type_edits", "payload of a tuple variant", "Dot(u32)", "Dot(String)"),
+        ("incremental_run_sees_type_edits", "return type", "-> Result<Level, String>", "-> Result<Vec<Level>, String>"),
+        ("incremental_run_sees_type_edits", "field type", "pub age: Option<u32>", "pub age: Option<String>"),
+        ("incremental_run_sees_type_edits", "channel message type", "Channel<u32>", "Channel<Level>"),
+        ("incremental_run_sees_type_edits", "parameter type", "retry_count: u32", "retry_count: String"),
+    ];
+    for mode in ["none", "zod"] {
+        for (i, (check, what, from, to)) in edits.iter().enumerate() {
+            rep.case(check, &format!("--validation {} edit: {} (`{}` -> `{}`)", mode, what, from, to), &|| {
+                if !LIB_EDIT.contains(from) { return Err(format!("UNPARSED: the corpus source does not contain `{}`", from)); }
+                let p = project(&root, &format!("inc_{}_{}", mode, i), Some(conf_plain));
+                let pp = p.join("src-tauri"); let gp = p.join("out"); let fp = p.join("fresh");
+                let strip = |m: BTreeMap<String, Vec<u8>>| -> BTreeMap<String, String> { m.into_iter().filter(|(k, _)| k != ".typecache").map(|(k, v)| (k, String::from_utf8_lossy(&v).lines().filter(|l| !l.contains("Generated at:")).collect::<Vec<_>>().join("\n"))).collect() };
+                fs::write(pp.join("src/lib.rs"), LIB_EDIT).map_err(|e| e.to_string())?;
+                let (code, text) = run(&cli, &p, &["generate", "--project-path", pp.to_str().unwrap(), "--output-path", gp.to_str().unwrap(), "--validation", mode])?;
+                if code != 0 { return Err(format!("the first run ended with status {}: {}", code, text.chars().take(200).collect::<String>())); }
+                let first = strip(snapshot(&gp));
+                fs::write(pp.join("src/lib.rs"), LIB_EDIT.replacen(from, to, 1)).map_err(|e| e.to_string())?;
+                let (code, text) = run(&cli, &p, &["generate", "--project-path", pp.to_str().unwrap(), "--output-path", gp.to_str().unwrap(), "--validation", mode])?;
+                if code != 0 { return Err(format!("the second run ended with status {}: {}", code, text.chars().take(200).collect::<String>())); }
+                let (code, text) = run(&cli, &p, &["generate", "--project-path", pp.to_str().unwrap(), "--output-path", fp.to_str().unwrap(), "--validation", mode, "--force"])?;
+                if code != 0 { return Err(format!("the forced run ended with status {}: {}", code, text.chars().take(200).collect::<String>())); }
+                let second = strip(snapshot(&gp)); let fresh = strip(snapshot(&fp));
+                for (f, text) in &fresh { if second.get(f) != Some(text) { return Err(format!("after the edit, {} of a run through the cache differs from a forced run: the bindings on disk still describe the old source", f)); } }
+                for f in second.keys() { if !fresh.contains_key(f) { return Err(format!("the run through the cache left {} behind, a forced run does not write it", f)); } }
+                Ok(if fresh == first { "the edit has no effect on the bindings of this mode".to_string() } else { "ok".to_string() })
+            });
+        }
     }
 
     // ---------------------------------------------------------------- C15: exit status on odd trees
